@@ -128,3 +128,50 @@ Proof.
       destruct (get id' busy); [|inv W]. destruct m'; dmh; eauto.
     + inv A. rewrite get_set_other by auto. destruct (get id' busy); [|inv W]. destruct m'; dmh; eauto.
 Qed.
+
+(* ---------- Manager.openFiles ---------- *)
+Definition mgr_run (V : variant) (n : Z) (rs : list Z) : Z := fold_left (mgr_step V) rs n.
+Fixpoint countz (f : Z -> bool) (rs : list Z) : Z :=
+  match rs with [] => 0 | r :: t => (if f r then 1 else 0) + countz f t end.
+Definition is_open_ok (r : Z) := (r =? 1) || (r =? 4).
+Definition is_close (r : Z) := (r =? 3) || (r =? 6).
+
+Lemma mgr_balanced : forall V rs n, fixF4 V = true ->
+    mgr_run V n rs = n + countz is_open_ok rs - countz is_close rs.
+Proof.
+  intros V rs. induction rs as [|r t IH]; intros n HV; cbn; [lia|].
+  unfold mgr_run in IH. rewrite IH by auto. unfold mgr_step, is_open_ok, is_close. rewrite HV.
+  destruct (r =? 1) eqn:E1, (r =? 4) eqn:E4, (r =? 2) eqn:E2, (r =? 5) eqn:E5, (r =? 3) eqn:E3, (r =? 6) eqn:E6;
+    rewrite ?Z.eqb_eq, ?Z.eqb_neq in *; cbn [orb]; lia.
+Qed.
+
+(* ---------- witnesses on the model of the current code ---------- *)
+Definition op_setversion_stale : opd :=
+  {| o_kind := KSetVersion; o_tract := 0; o_a1 := 3; o_a2 := 2; o_a3 := 0; o_data := []; o_srcs := [] |}.
+Definition g_one_tract : gst :=
+  {| g_busy := []; g_tracts := [(0, 0)]; g_files := [(0, {| f_fd := 1; f_ver := Some 2; f_data := [1; 2] |})];
+     g_nextfd := 2; g_opens := 0; g_closes := 0 |}.
+Definition all_done (s : sys) : bool := forallb (fun t => match t_pc t with PDone => true | _ => false end) (snd s).
+Definition sched_one (n : nat) : list (nat * Z) := repeat (0%nat, 0) n.
+
+Lemma f3_witness :
+  let s' := run_sched current_tree (g_one_tract, [new_thread op_setversion_stale]) (sched_one 12) in
+  all_done s' = true /\ g_opens (fst s') - g_closes (fst s') = 1 /\ g_busy (fst s') = [].
+Proof. vm_compute. auto. Qed.
+
+Lemma f3_repaired :
+  let s' := run_sched repaired (g_one_tract, [new_thread op_setversion_stale]) (sched_one 12) in
+  all_done s' = true /\ g_opens (fst s') - g_closes (fst s') = 0 /\ g_busy (fst s') = [].
+Proof. vm_compute. auto. Qed.
+
+(* GCTracts' gone path deletes without the tract lock: its Delete can fall inside a writer's section *)
+Definition op_write : opd := {| o_kind := KWrite; o_tract := 0; o_a1 := 2; o_a2 := 0; o_a3 := 0; o_data := [9]; o_srcs := [] |}.
+Definition op_gone : opd := {| o_kind := KGCGone; o_tract := 0; o_a1 := 0; o_a2 := 0; o_a3 := 0; o_data := []; o_srcs := [] |}.
+Lemma gcgone_witness :
+  let s' := run_sched repaired (g_one_tract, [new_thread op_write; new_thread op_gone])
+                      [(0%nat, 0); (0%nat, 0); (0%nat, 0); (0%nat, 0); (1%nat, 0); (1%nat, 0)] in
+  match snd s' with
+  | [w; d] => inside 0 w = true /\ pending_call (t_pc w) (t_loc w) = CK_Getx /\ pending_call (t_pc d) (t_loc d) = CK_Delete
+  | _ => False
+  end.
+Proof. vm_compute. auto. Qed.
